@@ -46,14 +46,18 @@ def groups(L, quick, action, prefix="G", nul=False):
 
 
 def refusal_case(args):
-    flex_exe, table = args
+    flex_exe, table, variant = args
+    spec = {"yyreject()": "%option noyywrap\n%%\na  { yyreject(); }\nab { }\n%%\n",
+            "REJECT": "%option noyywrap\n%%\na  { REJECT; }\nab { }\n%%\n",
+            # nothing in the actions tells flex about it: only the option does (round-9 seed C07-r9m3)
+            "%option reject": "%option noyywrap reject\n%%\na  { MY_BACKTRACK; }\nab { }\n%%\n"}[variant]
     import subprocess, tempfile
     wd = H.mkscratch("c07r")
     try:
-        open(os.path.join(wd, "r.l"), "w").write("%option noyywrap\n%%\na  { yyreject(); }\nab { }\n%%\n")
+        open(os.path.join(wd, "r.l"), "w").write(spec)
         p = subprocess.run([flex_exe, table, "-o", "r.c", "r.l"], cwd=wd, env=H.ENV, stdin=subprocess.DEVNULL,
                            stdout=subprocess.PIPE, stderr=subprocess.PIPE, timeout=60)
-        return {"table": table, "rc": p.returncode, "stderr": p.stderr.decode("latin-1")[-500:],
+        return {"table": table, "variant": variant, "spec": spec, "rc": p.returncode, "stderr": p.stderr.decode("latin-1")[-500:],
                 "wrote": os.path.exists(os.path.join(wd, "r.c")) and os.path.getsize(os.path.join(wd, "r.c")) > 0}
     finally:
         shutil.rmtree(wd, ignore_errors=True)
@@ -87,6 +91,9 @@ def run(tier):
     J("reentrant", groups(L - 1, True, H.ops_action([H.OP_REJECT], "R"), nul=True), knobs, api="R", options=["reentrant"])
     c99g = groups(L - 1, True, H.ops_action([H.OP_REJECT], "C99"), nul=True)
     J("c99", c99g[:80] + c99g[-5:], knobs, api="C99")
+    # rules whose head and trail are both variable, rejecting in their own action, on the c99 skeleton (round-9 seed C07-r9m2: they had
+    # been cut out of the c99 job by the slice above)
+    J("c99-vartrail", [g for g in c99g if "a+/b+" in g.label], knobs, api="C99")
     J("c99-Ce-one", c99g[:40] + c99g[-5:], dict(knobs, VF_READ_ONE=1, VF_BUFSIZES="0,8"), api="C99", flex_args=["-Ce"])
     J("array", groups(L - 1, True, rej)[:60], knobs, options=["array"], cdefs=["VF_ARRAY"])
     J("Ce-one", groups(L - 1, True, rej)[:80], dict(knobs, VF_READ_ONE=1, VF_BUFSIZES="0,8"), flex_args=["-Ce"])
@@ -137,12 +144,14 @@ def run(tier):
         ck.violation("C07:overflow-not-reported", "a+ on 'aaaaaaa' with a 2-byte non-growing REJECT buffer did not stop with the documented fatal error")
     # refusals: REJECT with full/fast tables must be refused at generation time
     for tbl in ("-Cf", "-CF", "-Cfe", "-CFe", "-f", "-F"):
-        r = refusal_case((flex.exe, tbl))
+      for variant in ("yyreject()", "REJECT", "%option reject"):
+        r = refusal_case((flex.exe, tbl, variant))
         ck.add("refusals_checked")
+        sfx = tbl if variant == "yyreject()" else "%s:%s" % (tbl, variant)
         if r["rc"] == 0:
-            ck.violation("C07:not-refused:" + tbl, "flex accepted yyreject() together with %s (exit 0)" % tbl, case=r)
+            ck.violation("C07:not-refused:" + sfx, "flex accepted %s together with %s (exit 0)" % (variant, tbl), case=r)
         elif not r["stderr"].strip():
-            ck.violation("C07:refused-silently:" + tbl, "flex refused yyreject() with %s without a message" % tbl, case=r)
+            ck.violation("C07:refused-silently:" + sfx, "flex refused %s with %s without a message" % (variant, tbl), case=r)
     ck.cov.update(states=tot["choice_points"], transitions=tot["op_effects"], traces_validated_against_impl=tot["executions"],
                   evaluations=tot["executions"], distinct_nontrivial=tot["nontrivial"], tokens_compared=tot["tokens"],
                   rule_sets=groups_done, inputs=tot["inputs"], expected_overflow_fatals=tot["expected_fatals"],
